@@ -358,3 +358,27 @@ def _(v):
     v.prove("Substance_composition", all(Substance.from_formula(f).composition == formula_to_composition(f) for f in forms))
     v.prove("Species_composition", all(Species.from_formula(f).composition == formula_to_composition(f) for f in forms))
     v.prove("Species_phase_idx", [Species.from_formula(f).phase_idx for f in ("NaCl(s)", "Hg(l)", ".NO2(g)", "CO2(aq)", "H2O")] == [1, 2, 3, 0, 0])
+
+
+@harness("C01", "no_state_between_parses", functions=["chempy.util.parsing:formula_to_composition", "chempy.chemistry:Substance.from_formula", "chempy.chemistry:Species.from_formula"], kind="data")
+def _(v):
+    """a parse depends on the formula given and on nothing that happened before: the caller may do what it likes with an earlier result
+    (Substance.__init__ itself writes the `charge` keyword into the composition it is handed)"""
+    from chempy.util.parsing import formula_to_composition as ftc
+    from chempy.chemistry import Substance, Species
+    d1 = ftc("C60")
+    d1[0] = 7
+    d1[6] = 1
+    d1[99] = 3
+    v.prove("mutating_a_returned_composition_does_not_change_later_parses", ftc("C60") == {6: 60} and ftc("C60") is not ftc("C60"))
+    s4 = Substance.from_formula("Ce", charge=4)
+    s0 = Substance.from_formula("Ce")
+    s4b = Substance.from_formula("Ce", charge=4)
+    v.prove("charge_keyword_then_plain", s4.composition == {58: 1, 0: 4} and s0.composition == {58: 1} and s4b.composition == {58: 1, 0: 4} and s0.charge == 0)
+    a = Species.from_formula("Fe+3(aq)")
+    a.composition[26] = 5
+    b = Species.from_formula("Fe+3(aq)")
+    v.prove("species_twice", b.composition == {26: 1, 0: 3} and b.phase_idx == 0 and ftc("Fe+3(aq)") == {26: 1, 0: 3})
+    seq = ["H2O", "Na+", "H2O", "Na2CO3..7H2O(s)", "Na+", "e-", "H2O"]
+    want = {"H2O": {1: 2, 8: 1}, "Na+": {11: 1, 0: 1}, "Na2CO3..7H2O(s)": {11: 2, 6: 1, 8: 10, 1: 14}, "e-": {0: -1}}
+    v.prove("repeated_and_interleaved_formulas", all(ftc(f) == want[f] for f in seq))
